@@ -46,3 +46,8 @@ package xpub
 //@
 //@ func (*socket).RemovePipe
 //@   may_close p.closeq caller
+// ---- generated wake-on-close contracts (from `govc sites -select`) ----
+//@ func (*pipe).sender
+//@   before select#1 assert selwaits(p.closeq)
+//@
+// ---- end generated wake-on-close contracts ----
